@@ -168,7 +168,7 @@ def era_chains():
         for k, (so, ru) in enumerate(eras):
             body = _era_line(so, ru, k) + ('\t%s' % untils[k] if k < len(untils) else '')
             lines.append(('Zone\t%s\t' % z if k == 0 else '\t\t\t') + body)
-        sig = '>'.join(ru for _, ru in eras) + ('@' + untils[0].split(' ', 1)[1].replace(' ', '_') if fam == 'chain2t' else '')
+        sig = '>'.join(ru for _, ru in eras) + ('@' + untils[0].split(' ', 1)[1].replace(' ', '_') if fam == 'chain2t' else ('@' + '+'.join(u.replace(' ', '_') for u in untils) if fam == 'chain3t' else ''))
         desc = '%s %s until %s' % (' '.join(so for so, _ in eras), sig, ','.join(untils))
         out.append((fam, sig, desc, '\n'.join(lines), z))
     for a, b in (('9:30', '9:30'), ('9:30', '10:30'), ('10:30', '9:30'), ('-3:30', '-4:30'), ('-4:30', '-3:30'), ('-11:00', '13:00')):
@@ -184,6 +184,13 @@ def era_chains():
         for r0, r1 in itertools.product(kinds, repeat=2):
             for tail in UNTIL_TAILS[1:] + [('Apr', 'Sun>=1', '2:00s'), ('Apr', 'Sun>=1', '3:00'), ('Mar', 'Sun>=8', '2:00'), ('Nov', 'Sun>=1', '2:00'), ('Nov', 'Sun>=1', '1:00')]:
                 add('chain2t', [(a, r0), (b, r1)], ['2012 ' + ' '.join(tail)])
+    # chain3t: three eras with two month/day/time UNTILs in the same or in consecutive years
+    T3 = [('Mar', 'lastSun', '1:00u'), ('Jun', '15', '0:00'), ('Oct', 'Sun>=1', '2:00s'), ('Nov', 'Sun>=1', '2:00')]
+    pairs3 = [('2012 ' + ' '.join(T3[i]), '2012 ' + ' '.join(T3[k])) for i in range(4) for k in range(i + 1, 4)] + \
+             [('2012 ' + ' '.join(a), '2013 ' + ' '.join(b)) for a in T3 for b in T3]
+    for rs in itertools.product(kinds, repeat=3):
+        for u1, u2 in pairs3:
+            add('chain3t', list(zip(('9:30', '10:30', '9:30'), rs)), [u1, u2])
     return '\n'.join(rl), out
 
 def year_boundary():
